@@ -1336,6 +1336,12 @@ class RestAPI(object):
                     )
                     return aws_error("MissingRequiredParameter"), 400
 
+                if not isinstance(output, str):  # The JSON output is passed as a string
+                    self.logger.error(
+                        "RestAPI SendTaskSuccess: InvalidOutput: output must be a string"
+                    )
+                    return aws_error("InvalidOutput"), 400
+
                 """
                 First check if the output length has exceeded the 262144 character
                 quota described in Stepfunction Quotas page.
